@@ -49,3 +49,18 @@ pub use zlink_macros::ReplyError;
 
 #[doc(hidden)]
 pub mod test_utils;
+
+/// Hooks for the verification harnesses (only compiled with `--cfg zlink_verif`).
+#[cfg(zlink_verif)]
+#[doc(hidden)]
+pub mod verif {
+    /// The crate-private JSON serializer entry point: `Ok(len)` on success, `Err(true)` if the
+    /// buffer is too small, `Err(false)` if the value is refused.
+    pub fn json_to_slice<T>(value: &T, buf: &mut [u8]) -> Result<usize, bool>
+    where
+        T: ?Sized + serde::Serialize,
+    {
+        crate::json_ser::to_slice(value, buf)
+            .map_err(|e| matches!(e, crate::json_ser::Error::BufferTooSmall))
+    }
+}
